@@ -537,3 +537,56 @@ func init() {
 		Outside: []string{"the 6 s period and 'within one cycle' in wall-clock time", "more than 3 hunted hosts"},
 	})
 }
+
+// ---- C11 / C12: DHCP handler, one message from symbolic lease-table states
+
+func dhcpJobs(tier string) []Job {
+	c := Config{MaxLoop: 1200, MaxWall: 900, Stubs: map[string]bool{}}
+	r := []string{"processed"}
+	var jobs []Job
+	for mode := int64(1); mode <= 3; mode++ {
+		for variant := int64(0); variant <= 6; variant++ {
+			if tier != "thorough" && variant <= 1 && mode != 2 {
+				continue // quick tier: DISCOVER variants in secondary mode only (the allocation code does not depend on the mode)
+			}
+			jobs = append(jobs, Job{Pkg: "handlers/dhcp4_spoofer", Func: "VerifC11Step", Args: []int64{mode, variant, 0}, SplitN: 4, Cfg: c, Reach: r})
+			if tier == "thorough" {
+				jobs = append(jobs, Job{Pkg: "handlers/dhcp4_spoofer", Func: "VerifC11Step", Args: []int64{mode, variant, 1}, SplitN: 24, Cfg: c, Reach: r})
+			}
+		}
+	}
+	if tier != "thorough" {
+		// one pre-existing lease: REQUEST variants (selecting, renew/rebind, reboot) in secondary mode
+		for _, variant := range []int64{2, 3, 4} {
+			jobs = append(jobs, Job{Pkg: "handlers/dhcp4_spoofer", Func: "VerifC11Step", Args: []int64{2, variant, 1}, SplitN: 24, Cfg: c, Reach: r})
+		}
+	}
+	return jobs
+}
+
+func dhcpBounds(tier string) map[string]string {
+	pre := "empty lease table for every (mode, message variant); one arbitrary pre-existing lease (any state, either subnet, any client id / MAC / address / xid / expiry) for the REQUEST variants in secondary mode"
+	if tier == "thorough" {
+		pre = "empty lease table and one arbitrary pre-existing lease (any state, either subnet, any client id / MAC / address / xid / expiry) for every (mode, message variant)"
+	}
+	return map[string]string{
+		"configuration": "home LAN 192.168.0.0/28 (router .1, our host .9), netfilter LAN 192.168.0.8/29 with our host as gateway (deliberately small pools: cursor wrap-around and exhaustion are inside the bound); modes primary, secondary, secondary-nice; symbolic host / router MAC",
+		"pre-states":    pre + "; the client captured or not; optionally an address the session tracks for another MAC",
+		"messages":      "DISCOVER (with / without requested address and parameter list), REQUEST selecting / renewing-rebinding / rebooting, DECLINE, RELEASE as Ethernet/IPv4/UDP/DHCP frames through the real Parse: client id (7 bytes), chaddr, xid, ciaddr, flags, source addresses symbolic; requested address any 192.168.0.x or 8.8.8.8; server id ours / the router's / any 192.168.0.x; parameter list {3,1} or {1,6}",
+		"induction":     "one message from an arbitrary invariant lease table: reply contract + lease-table invariant (no address acknowledged to two clients, allocated leases usable) asserted afterwards",
+	}
+}
+
+func init() {
+	common := []string{
+		"lease persistence is switched off (empty lease file name); the DHCP-server attack burst is disabled (nextAttack in the future); forced decline / release packets towards the real server are not replies and are not checked here",
+		"time.Now is an arbitrary non-decreasing clock; lease expiry of the pre-state lease is either one hour in the past or far in the future",
+		"stubs as in C01",
+	}
+	register(&Prop{ID: "C11", Jobs: dhcpJobs, Bounds: dhcpBounds, Assumptions: common, Filter: prefixFilter("C11:", true),
+		Technique: "inductive step by bounded symbolic execution of the real DHCP handler on a real Session: one client message from a symbolic invariant lease table; uniqueness / reserved-address conditions asserted by SMT on every reply and on the post-state",
+		Outside:   []string{"more than one pre-existing lease; multi-message histories (covered inductively for the bounded shapes only)", "lease file (C18)", "MinuteTicker expiry (one line, exercised by the expired/not-expired pre-states)"}})
+	register(&Prop{ID: "C12", Jobs: dhcpJobs, Bounds: dhcpBounds, Assumptions: common, Filter: prefixFilter("C12:", false),
+		Technique: "inductive step by bounded symbolic execution of the real DHCP handler: reply contract (subnet segregation by capture state, mask before router, server id, lease time, xid/chaddr echo, ACK only for the transaction's offer or the current lease, NAK carries no address) asserted by SMT on every emitted reply",
+		Outside:   []string{"the complete NAK-vs-silence table (only 'never ACK' conditions are asserted)", "other home / netfilter prefix configurations"}})
+}
